@@ -22,7 +22,11 @@ CLAIM = dict(
          "well-formed graphs and requests (or is refuted by a concrete witness that is replayed on the code), consistent requests are accepted, "
          "and S+I(+R)=N is structural where the tuple is built by subtraction. The model is tied to /repo on every run by comparing the extracted "
          "model's row 0 with the implementation's on random relabelled graphs; an independent Python oracle checks times, row 0, conservation, "
-         "bounds and SIR monotonicity on the output of every ODE entry point.",
+         "bounds and SIR monotonicity on the output of every ODE entry point.  Conservation / sign clauses of the right-hand sides: over the GENERATED scalar/1-D systems "
+         "(Gen/Rhs.v), and over hand-written models of the node-level and 2-D systems (coq/Model/Rhs2D.v; on every run translate/rhs2d2v.py, fail-closed, regenerates coq/Gen/Rhs2.v from the source and the theorems *_generated_* re-prove generated definition = model; model and generated definition are also point-evaluated against the code, >=200 points per function): individual-based and pair-based SIR dX_i+dY_i=-gamma_i*Y_i (Z_i=1-X_i-Y_i grows at gamma_i*Y_i), dX_i<=0; individual-based SIS inward on the faces Y_i=0,1; "
+         "heterogeneous pairwise: S_k+I_k=N_k and the pair total structural (SIS), dS_k+dI_k=-gamma*I_k and dS_k<=0 (SIR), [S_kS_l] stays symmetric, pair counts stay consistent "
+         "with class sizes; effective degree SIS: exact totals of both blocks and sum(dS_si+dI_si)=0 on the feasible region (with an example off it where the code loses mass), "
+         "SIR: dR=gamma*(N-S-R), total S non-increasing.",
     design='DESIGN.md section 4, C06',
     technique='Coq proof over hand-written model + extracted-model/implementation correspondence + specification oracle on every entry point',
     note="Bounds and monotonicity along the curve, and conservation where it relies on the right-hand side summing to zero, are checked "
@@ -31,7 +35,10 @@ CLAIM = dict(
          "for the homogeneous and heterogeneous mean field, homogeneous pairwise (partial), compact pairwise, super compact, SIR effective degree (explicit sets) "
          "and EBCM_from_graph (partial) wrappers, following the code after the fix: commits (no refutation is left; acceptance of SIS_heterogeneous_pairwise_from_graph is proved, its row 0 shown on an example); "
          "the other entry points (solver-level functions, SIS effective degree, compact effective degree, "
-         "heterogeneous pairwise, pref-mix, individual/pair based, Attack_rate_*_from_graph) are covered by the oracle (and, for the 17 wrappers, the row-0 correspondence) only.")
+         "heterogeneous pairwise, pref-mix, individual/pair based, Attack_rate_*_from_graph) are covered by the oracle (and, for the 17 wrappers, the row-0 correspondence) only "
+         "as far as row 0 / acceptance go; their right-hand sides' conservation and sign clauses are proved over the hand-written Model/Rhs2D.v, which is proved equal on every run to the "
+         "definitions regenerated from the source (theorems C06_generated_*; pair-based under index_of_node = enumerate(nodelist) over a simple graph); each such theorem is also "
+         "re-evaluated numerically on the Python functions.")
 
 TOL0 = 1e-9
 
@@ -280,8 +287,16 @@ def run(run, tier):
         regen = 'translator refused: %s' % str(ex)[-300:]
         run.violation('C06/rhs-translation', 'translate/rhs2v.py refuses the current analytic.py (%s); the conserve_ theorems over Gen/Rhs.v are not re-established; '
                       'conservation is still checked numerically on every entry point below' % regen, {'broken': 'translate/rhs2v.py', 'log': regen}, no_input=True)
-    props = C.check_props('C06')
-    proof_broken = not props['ok']
+    from . import rhs2_spec as S2
+    regen2 = S2.regen_phase()
+    props = C.check_props('C06') if regen2 is None else S2.REFUSED_PROPS(regen2)
+    proof_broken = not props['ok'] and regen2 is None
+    # conservation / sign clauses of the 2-D and node-level right-hand sides: hand-written model tied by point evaluation,
+    # every theorem re-evaluated on the Python functions (own RNG stream: the cases below are not shifted)
+    from . import rhs2_spec as S2
+    def _report(run_, key, what, rp, no_input=False):
+        n0 = len(run_.violations); run_.violation(key, what, rp, no_input); return len(run_.violations) > n0
+    blk = S2.check_block(run, EoN, 'C06', tier, _report, regen2)
     t1 = time.time()
     wit = [dict(w[1]) for w in WITNESSES]
     cases = wit + C.load_corpus('C06') + gen_cases(rng, tier)
@@ -318,32 +333,49 @@ def run(run, tier):
                           'update the model and replace the _refuted theorem by the positive one' % (thm, clause),
                           {'case': wc, 'clause': clause, 'broken': 'Props/C06.v ' + thm}, no_input=True)
     if proof_broken:
-        run.violation('C06/proof', 'Props/C06.v no longer checks (%s): %s; the oracle below found %d violating cases' % (props.get('failed_at'), props['log'][-300:], nviol),
-                      {'broken': 'coq/Props/C06.v', 'log': props['log'],
-                       'case': (min(seen.values(), key=lambda x: x[0])[2] if seen else None), 'clause': (min(seen.values(), key=lambda x: x[0])[3] if seen else None)},
-                      no_input=(nviol == 0))
+        new_seen = {k: v for k, v in seen.items() if k not in set(kk)}          # violations that are not known findings
+        w = min(new_seen.values(), key=lambda x: x[0]) if new_seen else None
+        run.violation('C06/proof', 'Props/C06.v no longer checks (%s): %s; the entry-point oracle found %d violating cases that are not known findings, the numerical versions of the '
+                      'right-hand-side theorems %d' % (props.get('failed_at'), props['log'][-300:].replace('\n', ' '), len(new_seen), blk['found']),
+                      {'broken': 'coq/Props/C06.v', 'log': props['log'], 'case': (w[2] if w else None), 'clause': (w[3] if w else None)},
+                      no_input=(not new_seen and not blk['found']))
     for key, (size, what, case, clause, obs) in seen.items():
         run.violation(key, what + ' [%s]' % ', '.join(qualifiers(case, OC.Oracle(case, OC.ENTRIES[case['entry']].sir))),
                       {'case': case, 'clause': clause, 'observed_row0': short(obs) if obs else None})
+    if blk['broken'] and not run.violations:          # (known findings are not in run.violations)
+        for what, detail in blk['broken']:
+            run.violation('C06/%s' % what, detail + ' -- the numerical versions of the theorems and the entry-point oracle found no failing input of the property',
+                          {'broken': what, 'detail': detail}, no_input=True)
+    elif blk['broken']:
+        run.coverage['also_broken'] = blk['broken']
     t2 = time.time()
     from . import c06_model
     corr = c06_model.correspondence(run, EoN, results, tier) if hasattr(c06_model, 'correspondence') else {'status': 'not built yet'}
     nontriv = sum(1 for r in results if r[2][0] == 'OK')
-    C.proof_coverage(run, props, len(cases), min(len(distinct), nontriv),
+    C.proof_coverage(run, props, len(cases) + blk['n_eval'], min(len(distinct), nontriv) + blk['n_distinct'],
                      'every ODE entry point of analytic.py (%d entries, both return_full_data values where offered) on random graphs of 3-9 nodes '
                      '(ER / tree / ring / star; permuted-int, offset-int, string and tuple labels; shuffled node and edge insertion order; isolated nodes in ~30%% '
                      'of the cases), tau and gamma from dyadic sets incl. 0, rho dyadic / default 1/N / explicit initial sets (>=1 infected node, >=1 susceptible node with an edge) '
                      'with initial_recovereds absent, empty or non-empty, 3 time grids.  Non-trivial = the implementation returned a result.  Curve checks of the '
-                     'homogeneous pairwise models are limited to requests inside the closure\'s domain (rho, or a regular graph).' % len(OC.ENTRIES),
+                     'homogeneous pairwise models are limited to requests inside the closure\'s domain (rho, or a regular graph).  ' % len(OC.ENTRIES) + S2.RULE,
                      samples, {'distribution': stats, 'per_entry': per_entry, 'oracle_violations': nviol, 'distinct_violation_keys': len(seen), 'refutation_witnesses_confirmed_on_code': wrep, 'rhs_regeneration': regen,
+                               'rhs2': dict(blk['dist'], samples=blk['samples'], hand_written_model='coq/Model/Rhs2D.v (component rhs2): proved equal to the definitions generated from the source by translate/rhs2d2v.py (Gen/Rhs2.v, theorems C06_generated_*), both tied by point evaluation'),
                                'correspondence': corr, 'wall_coq_s': round(t1 - t0, 1), 'wall_impl_s': round(t2 - t1, 1)})
-    run.assumptions += ['scipy.integrate.odeint / ode return the initial value as first row and the solution to tolerance',
+    run.assumptions += ['Model/Rhs2D.v is a hand-written model of the 2-D / node-level right-hand sides; its precondition is index_of_node = enumerate(nodelist) over a simple graph (what every caller in analytic.py builds)',
+                        'scipy.integrate.odeint / ode return the initial value as first row and the solution to tolerance',
                         'curve checks use tolerances 1e-6*N (sum) and 1e-5*N (bounds, monotonicity); row 0 relative 1e-9']
 
 
 def replay(rp):
     EoN = C.import_eon()
     r = rp['replay']
+    if r.get('kind') == 'rhs2_spec':
+        from . import rhs2_spec as S2
+        res = S2.case_spec(EoN, r['params'])
+        print('replay rhs2_spec: %s' % (res or 'holds'))
+        return 1 if res else 0
+    if not r.get('case'):
+        print('replay: no concrete input recorded (%s)' % rp.get('what', '')[:200]); return 0
     case, clause = r['case'], r['clause']
     e, o, res, vio, obs = evaluate(EoN, case)
     hit = [v for v in vio if v[0] == clause]
